@@ -422,8 +422,11 @@ def main(argv=None):
                 try:
                     obj = json.loads(cf.read_text())
                     buf = io.StringIO()
+                    # a separate context: a module's replay must not disturb the bookkeeping of the run
+                    cctx = Ctx(prop, tier, seed)
+                    cctx._driver_ok = ctx._driver_ok
                     with contextlib.redirect_stdout(buf):
-                        r = mod.replay(ctx, obj)
+                        r = mod.replay(cctx, obj)
                     ctx.hit("corpus_cases_replayed")
                     if r:
                         ctx.fail(obj.get("signature", f"{prop}:corpus:{cf.stem}"),
